@@ -31,9 +31,14 @@ namespace OP2Utility::Stream
 	}
 
 	void FileReader::ReadImplementation(void* buffer, std::size_t size) {
+		const auto startPosition = file.tellg();
 		file.read(static_cast<char*>(buffer), size);
 		// Check stream flags for errors
 		if (!file) {
+			// A failed read must not leave the stream unusable for later calls.
+			// Reset the error flags (they are sticky) and restore the position from before the read.
+			file.clear();
+			file.seekg(startPosition);
 			throw std::runtime_error("Error reading from file");
 		}
 	}
